@@ -74,6 +74,8 @@ pub struct World {
     pub armed_recv: BTreeMap<RawFd, RecvFault>,
     pub armed_write: BTreeMap<RawFd, WriteFault>,
     pub faults_taken: usize,
+    /// polls that reported the shutdown indication although the kill switch was never signalled
+    pub spurious_shutdowns: usize,
     /// the server's current payload limit (applies to connections accepted from now on)
     pub cur_limit: usize,
 }
@@ -200,6 +202,7 @@ impl World {
             armed_recv: BTreeMap::new(),
             armed_write: BTreeMap::new(),
             faults_taken: 0,
+            spurious_shutdowns: 0,
             cur_limit: limit.unwrap_or(51200),
         };
         w.emit(rec, "srv new".into(), "ok".into());
@@ -633,6 +636,10 @@ impl World {
             }
             Ok(Err(ServerError::ShutdownEvent)) => {
                 self.shutdown_polls += 1;
+                if !self.killed {
+                    // C18, second clause: before the switch is signalled its presence changes nothing
+                    self.spurious_shutdowns += 1;
+                }
                 format!("shutdown {}", tail)
             }
             Ok(Err(e)) => {
